@@ -107,7 +107,7 @@ def plan(tier, seed):
     pl.canaries = [canary()]
     pl.finite = [("C03-T/table-equality", table_equality), ("C03-T/conflict-audit", conflict_audit),
                  ("C03-T/reserved-words", precedence_facts), ("C03-T/left-assoc", parsing.left_assoc_table)]
-    n = 5 if tier == "quick" else 6
+    n = 5 if tier == "quick" else 7
 
     def differential():
         return bounded.run_native("c03_structure", {"max_tokens": n, "seed": seed, "known": bounded.known_for("C03", "C03-P")})
